@@ -116,29 +116,29 @@ func c01Cfgs(c *chk.Ctx) []placeCfg {
 		{
 			nShards:   2,
 			sizes:     [][2]int64{{40, 40}, {10, 60}},
-			copyOpts:  []copyOpt{coAbsent, coN5, coN3, coN2, coN0u, coT5, coT3, coT2, coN5d, coT0u},
-			extras:    [][]int64{{0, 0}, {75, 0}, {0, 75}, {130, 0}},
+			copyOpts:  []copyOpt{coAbsent, coN5, coN3, coN2, coN0u, coT5, coT2, coN5d},
+			extras:    [][]int64{{0, 0}, {75, 0}, {130, 0}},
 			disc0:     []bool{true, false},
-			lastClass: []int{shInSync, shNotReady, shStatusFail, shRuntimeFail, shHashAcceptStill, shHashAcceptEqual},
+			lastClass: []int{shInSync, shNotReady, shStatusFail, shHashAcceptStill},
 			firstToo:  true,
 			heads:     []int64{0, 100},
 			idles:     []int64{0, 3600},
-			newTgt:    []int{0, 1, 2},
+			newTgt:    []int{0, 2},
 			postFail:  []int{-1, 0},
-			noRelieve: []bool{false, true},
+			noRelieve: []bool{false},
 		},
 		{
 			nShards:   3,
 			sizes:     [][2]int64{{40, 40}},
 			copyOpts:  []copyOpt{coAbsent, coN5, coN3, coN2, coN0u, coT5, coT3, coT2, coN5d, coT0u, coT5d},
-			extras:    [][]int64{{0, 0, 0}, {75, 0, 0}, {0, 75, 0}, {75, 75, 0}, {0, 0, 75}, {130, 0, 0}},
+			extras:    [][]int64{{0, 0, 0}, {75, 0, 0}, {0, 0, 75}, {130, 0, 0}},
 			disc0:     []bool{true, false},
-			lastClass: []int{shInSync, shNotReady, shStatusFail, shRuntimeFail, shHashAcceptStill, shHashAcceptEqual, shHashReject},
+			lastClass: []int{shInSync, shNotReady, shStatusFail, shRuntimeFail, shHashAcceptStill},
 			firstToo:  true,
 			heads:     []int64{0, 100},
 			idles:     []int64{0, 3600},
-			newTgt:    []int{0, 1, 2},
-			postFail:  []int{-1, 0, 1},
+			newTgt:    []int{0, 1},
+			postFail:  []int{-1, 1},
 			noRelieve: []bool{false, true},
 		},
 		{
@@ -148,6 +148,7 @@ func c01Cfgs(c *chk.Ctx) []placeCfg {
 			extras:    [][]int64{{0, 0, 0}, {75, 0, 0}, {0, 0, 75}},
 			disc0:     []bool{true, false},
 			lastClass: []int{shInSync, shNotReady},
+			firstToo:  true,
 			heads:     []int64{0, 100},
 			idles:     []int64{0, 3600},
 			newTgt:    []int{0, 1},
